@@ -24,6 +24,7 @@ def run(ctx):
     ctx.children(b, 2 if not ctx.thorough else 4, run='TestC07$', timeout=2400, env={'VERIF_C07_DEBUG': '1'}, what='TestC07[debug logging]')
     ctx.children(b, 1, run='TestC07Big', timeout=300, what='TestC07Big')
     ctx.children(b, 1, run='TestC07Kept', timeout=300, what='TestC07Kept')
+    ctx.children(b, 1, run='TestC07ContainerHandle', timeout=300, what='TestC07ContainerHandle')
     ctx.children(b, 1, run='TestC07PreMockValues', timeout=300, what='TestC07PreMockValues')
     ctx.children(b, 1, run='TestC07TableLifetime', timeout=300, what='TestC07TableLifetime', crash_key='C07/method-table-freed-while-mocked')
     if ctx.stats.get('gc_monitors_armed', 0) == 0:
